@@ -503,12 +503,13 @@ theorem item_step (hw : T.WFInv) (nroot fuel : Nat) (IH : AllSpecs T nroot fuel)
 
 private theorem OTok_accentU (n : Nat) (tok : Tok) (txt : Str) (ht : BTok T n tok) (hk : tok.kind = .accent)
     (hlen : tok.txt.length = 2) (hu : txt.length ≤ 2) :
-    OTok T n { kind := .text, pos := tok.pos, txt := txt, fix := tok.fix } := by
+    OTok T n { kind := .text, pos := tok.pos, txt := txt, fix := tok.fix || decide (1 < txt.length) } := by
   obtain ⟨⟨h1, h2, _, _⟩, _⟩ := ht
   simp only [extent, hk] at h2
   simp only [OTok, TokOk, extent, ctlEmpty, mbOk, outKind, h1, true_and, and_true]
   intro hf
-  have := h2 hf
+  simp only [Bool.or_eq_false_iff, decide_eq_false_iff_not] at hf
+  have := h2 hf.1
   omega
 
 private theorem OTok_shorten (n : Nat) (t : Tok) (c : Char) (cs : Str) (h : OTok T n t) (ht : t.txt = c :: cs) :
@@ -534,7 +535,7 @@ private theorem accent_err (hw : T.WFInv) (nroot : Nat) (st s : PState) (err : S
 
 private def accentEmit (T : PTables) (tok : Tok) (a2 : Buf) (rest : List Tok) (nm : Str) : M (List Tok × Buf) :=
   match T.unicodeNames.find? (·.1 == nm) with
-  | some u => pure ({ kind := .text, pos := tok.pos, txt := u.2, fix := tok.fix } :: rest, a2)
+  | some u => pure ({ kind := .text, pos := tok.pos, txt := u.2, fix := tok.fix || decide (1 < u.2.length) } :: rest, a2)
   | none => do
     let er ← latexError T.toTables ("could not find UTF-8 character \"".toList ++ nm ++ ['"']) tok.pos
     pure (er, a2)
